@@ -56,3 +56,82 @@ Example C11_nonvacuous :
   In (ERet 2 0 (OJoin 1 (3*S)) 0 (2*S) 0 false) (log s) /\ In (ERet 3 0 (OJoin 1 S) 0 S 0 false) (log s) /\
   In (EExit 4 9 (4*S) true) (log s) /\ In (ETerm 5 (4*S)) (log s).
 Proof. vm_compute. repeat split; auto 60. Qed.
+
+(** ------------------------------------------------------------------------------------------------------------------
+    Auto-restart after a host reboot (model SGV.Kernel.Restart: host turn_off/turn_on, boot records, on_exit vectors as an
+    explicit heap so that sharing between an actor and a record is expressible). All statements are about every history
+    of kernel events (any number of reboots, registrations, kills, in any order). *)
+From SGV Require Import Kernel.Restart Kernel.RestartProofs.
+
+(* C11_restart: in every reachable state, for every actor (= incarnation) ever created: nothing of its callbacks has run
+   while it lives; once it has ended, the callbacks observed in it are exactly the content of its own vector, each once,
+   the most recently registered first, all at the date of its end -- whatever happened afterwards (later incarnations,
+   reboots, registrations). An actor that does not exist yet has run nothing. *)
+Theorem C11_restart : forall s a,
+  reachable s -> In a (actors s) ->
+  rev (exits (a_pid a) (log s)) =
+    if a_alive a then [] else map (fun c => (c, a_end a)) (rev (lookup (a_pid a) (heap s))).
+Proof. exact restart_exits. Qed.
+Print Assumptions C11_restart.
+
+Theorem C11_restart_nothing_before_creation : forall s p, reachable s -> next_pid s <= p -> exits p (log s) = [].
+Proof. exact restart_no_exit_of_unborn. Qed.
+Print Assumptions C11_restart_nothing_before_creation.
+
+(* what "its own vector" contains: it changes only by a registration on that very actor while it lives -- never by a
+   registration on another incarnation, a reboot, a death *)
+Theorem C11_restart_callbacks_private : forall s e p,
+  reachable s -> p < next_pid s ->
+  lookup p (heap (kstep false s e)) =
+    match e with
+    | KOnExit q tag => if (q =? p) && alive_in s p then lookup p (heap s) ++ [tag] else lookup p (heap s)
+    | _ => lookup p (heap s)
+    end.
+Proof. exact restart_private. Qed.
+Print Assumptions C11_restart_callbacks_private.
+
+(* ... and a re-created actor (HostImpl::turn_on folds this over the boot records) starts, in a vector of its own, with a
+   copy of the recorded vector, with the recorded code and host, auto-restart again *)
+Theorem C11_restart_recreates_recorded : forall s g,
+  reachable s -> host_is_on (g_host g) s = true -> (forall o, g_list g = Some o -> o < next_pid s) ->
+  let s' := create_arg false s g in
+  lookup (next_pid s) (heap s') = match g_list g with Some o => lookup o (heap s) | None => [] end /\
+  exists a, get_actor (next_pid s) (actors s') = Some a /\ a_alive a = true /\ a_list a = Some (next_pid s) /\
+            a_code a = g_code g /\ a_host a = g_host g /\ (g_auto g = true -> a_auto a = true).
+Proof. exact restart_recreate. Qed.
+Print Assumptions C11_restart_recreates_recorded.
+
+(* the record made by set_auto_restart shares the vector of the calling actor (the only sharing there is) *)
+Theorem C11_restart_record : forall s p a x,
+  reachable s -> get_actor p (actors s) = Some a -> a_alive a = true -> a_auto a = false ->
+  get_host (a_host a) (hosts s) = Some x ->
+  get_host (a_host a) (hosts (kstep false s (KSetAuto p))) =
+    Some (mkH (h_id x) (h_on x) (h_boot x ++ [mkG (a_code a) (a_host a) true (Some p) (a_kill a)])).
+Proof. exact restart_record. Qed.
+Print Assumptions C11_restart_record.
+
+Theorem C11_restart_no_sharing_between_actors : forall s,
+  reachable s ->
+  NoDup (map a_pid (actors s)) /\
+  forall a, In a (actors s) -> a_list a = if a_alive a then Some (a_pid a) else None.
+Proof. exact restart_no_sharing. Qed.
+Print Assumptions C11_restart_no_sharing_between_actors.
+
+(* [c11_demo]: three reboots of an auto-restart actor (callbacks 100, 101 registered by main before / after
+   set_auto_restart; the restarted incarnations register 11 then 12, 21, 31) *)
+Example C11_restart_nonvacuous :
+  let s := krun false (kinit 1) c11_demo in
+  map a_pid (actors s) = [1; 2; 3; 4; 5] /\ forallb (fun a => negb (a_alive a)) (actors s) = true /\
+  rev (exits 3 (log s)) = [(12, 12); (11, 12); (101, 12); (100, 12)] /\
+  rev (exits 4 (log s)) = [(21, 20); (101, 20); (100, 20)] /\
+  rev (exits 5 (log s)) = [(31, 28); (101, 28); (100, 28)].
+Proof. vm_compute. repeat split. Qed.
+
+(* the statement is not a tautology of the modelling style: with "actor->on_exit = args->on_exit" in create(ProcessArg* )
+   (share instead of copy) the callback registered once, by the second incarnation, runs again in the third and fourth *)
+Theorem C11_restart_share_variant_refuted :
+  let s := krun true (kinit 1) c11_demo in
+  rev (exits 4 (log s)) = [(21, 20); (12, 20); (11, 20); (101, 20); (100, 20)] /\
+  rev (exits 5 (log s)) = [(31, 28); (21, 28); (12, 28); (11, 28); (101, 28); (100, 28)].
+Proof. vm_compute. split; reflexivity. Qed.
+Print Assumptions C11_restart_share_variant_refuted.
